@@ -219,7 +219,7 @@ PROPS = {
     ),
     'C17': dict(
         level='exploration', custom='c17', bins=[],
-        claim='Generated machine structures (320 quick / 3000 thorough, up to 320 states (counts beyond 255), width 12, depth 7, headless and width-1 regions, all root kinds, plus the zoo) are compiled with static_asserts that compare stateId<>(), regionId<>() and every published count (states, regions, composite/orthogonal regions, orthogonal units, prongs, serialization bits, default task capacity) with an independent depth-first numbering; every structure is spelled twice (template states and separately named structs) and both must agree. Run-time half (three zoo machines, generated histories): control.stateId() in every callback equals the declared id, and control.plan() inside update() is plan(<published id of the region the state lives in>).',
+        claim='Generated machine structures (320 quick / 1500 thorough, up to 320 states (counts beyond 255), width 12, depth 7, headless and width-1 regions, all root kinds, plus the zoo) are compiled with static_asserts that compare stateId<>(), regionId<>() and every published count (states, regions, composite/orthogonal regions, orthogonal units, prongs, serialization bits, default task capacity) with an independent depth-first numbering; every structure is spelled twice (template states and separately named structs) and both must agree. Run-time half (three zoo machines, generated histories): control.stateId() in every callback equals the declared id, and control.plan() inside update() is plan(<published id of the region the state lives in>).',
         note='The generated input is a program; the oracle is evaluated by the compiler. Trusted: the Python DFS of tools/structgen.py (30 lines, shares nothing with the library\'s type-list arithmetic).',
         technique='generated-program testing: random structures + independently derived static_asserts (compile = evaluate)',
         assumptions=['identifier types are the defaults (Short = uint8_t): structures stay below 128 states'],
